@@ -379,6 +379,7 @@ fn explore(ctx: &Ctx, report: &mut Report, n: u8, ops: &[Op], depth: usize) {
     let mut closed: BTreeSet<String> = BTreeSet::new();
     bfs(ctx, report, &evs, depth, 1, |h, report, ordinal| {
         let case = json!({"n": n, "hist": h});
+        let _watch = crate::util::watch::enter_secs("swarm history incl. closing phase", case.clone(), 120);
         match catch(|| replay_history(n, h)) {
             Err(p) => {
                 report.violation("no_panic", json!({}), case, format!("panic: {p}"), ordinal);
